@@ -141,27 +141,41 @@ Inductive vop :=
 | VEdit (p : vside) (d body phys : N)      (* PUT on the current revision: create / update / resurrect *)
 | VDelete (p : vside) (d phys : N)         (* DELETE of the current revision (a tombstone can be deleted again) *)
 | VPull (d : N)
-| VPush (d : N).
+| VPush (d : N)
+| VPullRetry (d body phys : N).
+(* VPullRetry: a pull of d whose write loses its CAS to a local PUT that lands on the active side between the update
+   callback and the write (db/crud.go updateAndReturnDoc: "this block can be invoked multiple times if there are
+   races").  The callback -- conflict check and resolution -- is re-run on the UPDATED document against the SAME
+   incoming revision and vector, and the first run leaves no trace (resolveLocalWinsHLV / resolveRemoteWinsHLV work on
+   copies of the two vectors): the outcome is that of the pull made after the local PUT. *)
 
 Definition vop_doc (o : vop) : N :=
-  match o with VEdit _ d _ _ | VDelete _ d _ | VPull d | VPush d => d end.
+  match o with VEdit _ d _ _ | VDelete _ d _ | VPull d | VPush d | VPullRetry d _ _ => d end.
 
 Definition set_doc (pr : vpeer) (d : N) (x : option vdoc) : vpeer := mkP (updf (p_doc pr) d x) (p_clk pr).
 
+Definition edit_sys (s : vsys) (p : vside) (d body phys : N) : vsys :=
+  set_peer s p (local_write p (peer_of s p) d body false phys).
+
+Definition pull_full (s : vsys) (d : N) : vsys * vstatus :=
+  let '(x, st) := vtransfer true (vdoc_of s VB d) (vdoc_of s VA d) in
+  (set_peer s VA (set_doc (s_act s) d x), st).
+
+Definition push_full (s : vsys) (d : N) : vsys * vstatus :=
+  let '(x, st) := vtransfer false (vdoc_of s VA d) (vdoc_of s VB d) in
+  (set_peer s VB (set_doc (s_pas s) d x), st).
+
 Definition vstep_full (s : vsys) (o : vop) : vsys * vstatus :=
   match o with
-  | VEdit p d body phys => (set_peer s p (local_write p (peer_of s p) d body false phys), VNothing)
+  | VEdit p d body phys => (edit_sys s p d body phys, VNothing)
   | VDelete p d phys =>
       match vdoc_of s p d with
       | Some _ => (set_peer s p (local_write p (peer_of s p) d tomb_body true phys), VNothing)
       | None => (s, VNothing)                      (* 404 *)
       end
-  | VPull d =>
-      let '(x, st) := vtransfer true (vdoc_of s VB d) (vdoc_of s VA d) in
-      (set_peer s VA (set_doc (s_act s) d x), st)
-  | VPush d =>
-      let '(x, st) := vtransfer false (vdoc_of s VA d) (vdoc_of s VB d) in
-      (set_peer s VB (set_doc (s_pas s) d x), st)
+  | VPull d => pull_full s d
+  | VPush d => push_full s d
+  | VPullRetry d body phys => pull_full (edit_sys s VA d body phys) d
   end.
 
 Definition vstep (s : vsys) (o : vop) : vsys := fst (vstep_full s o).
